@@ -704,6 +704,13 @@ class VhdlScope:
         else:
             enumerators = [member.name for member in enum_type.__members__]
 
+        lower_names = [enumerator.lower() for enumerator in enumerators]
+
+        # VHDL identifiers are case-insensitive
+        assert len(set(lower_names)) == len(
+            lower_names
+        ), f"enumerators of '{enum_type.__name__}' differ only in case: {enumerators}"
+
         root = self
 
         while root._parent is not None:
